@@ -470,7 +470,7 @@ class Reader(object):
                     else:
                         parts.append(self.val)
                     self.adv()
-                d.attrs[an] = "".join(parts)
+                d.attrs[an] = join_words(parts)
             elif self.typ == "EQUALS":
                 self.adv()
                 d.attrs[an] = self.initializer()
@@ -574,6 +574,18 @@ def read_declaration(toks, sym=None):
     if r.typ != "EOF":
         raise RefReject("syntax:other", "trailing text")
     return d
+
+
+def join_words(parts):
+    """The text of an attribute value: its tokens, two adjacent words kept apart by one blank ('3 4' is not '34',
+    'unsigned int' is not 'unsignedint'); no blank anywhere else."""
+    out = []
+    for v in parts:
+        v = str(v)
+        if out and (out[-1][-1:].isalnum() or out[-1][-1:] == "_") and (v[:1].isalnum() or v[:1] == "_"):
+            out.append(" ")
+        out.append(v)
+    return "".join(out)
 
 
 def expr_struct(e):
